@@ -201,6 +201,8 @@ inductive GoFOp where
 /-- `os.FileInfo` as far as translated code looks at it -/
 structure GoFileInfo where
   size : Int := 0
+  /-- `Mode().IsRegular()` -/
+  regular : Bool := true
   deriving Repr, DecidableEq
 
 /-- `*p` for a pointer that the guard in front of the expression has shown not to be nil -/
@@ -240,6 +242,13 @@ structure Ext where
   /-- `config.Server.Schedule` and `config.Server.Continuous` -/
   schedule : List GoJob := []
   continuous : List GoJob := []
+  /-- `filepath.EvalSymlinks`, `filepath.Abs` -/
+  evalSymlinks : GoString → GoString × GoErr := fun p => (p, none)
+  absPath : GoString → GoString × GoErr := fun p => (p, none)
+  /-- `permissions.ToRead(user, path)` (always true unless built with linuxacl) -/
+  osToRead : GoString → GoString → Bool × GoErr := fun _ _ => (true, none)
+  /-- `os.Lstat(path)` -/
+  osLstat : GoString → GoFileInfo × GoErr := fun _ => ({}, none)
   /-- `knownhosts.Normalize(address)` -/
   normalizeAddr : GoString → GoString := fun a => a
   /-- `bufio.NewScanner(file)`: the lines `Scan` / `Text` deliver for the file opened on this path (scanning stops silently
